@@ -173,7 +173,11 @@ class Type:
         else:
             raise NotImplementedError((self.kind, other.kind))
         # TODO: array type support
-        bits = max([t.bits for t in [self, other] if t.kind == kind and t.bits is not None] or [None])
+        bits_lst = [t.bits for t in [self, other] if t.kind == kind and t.bits is not None]
+        if kind == "complex" and bits_lst:
+            # a float operand promoted to complex takes twice its size
+            bits_lst.extend([2 * t.bits for t in [self, other] if t.kind == "float" and t.bits is not None])
+        bits = max(bits_lst or [None])
         return type(self)(self.context, kind, bits)
 
     @property
